@@ -448,6 +448,54 @@ func (t *Term) write(sb *strings.Builder) {
 	}
 }
 
+// alphaKey prints t with bound variables renamed canonically (b0, b1, ... in binding order), so that formulas that
+// differ only in the names of bound variables get the same key.
+func alphaKey(t *Term) string {
+	var sb strings.Builder
+	n := 0
+	var rec func(t *Term, env map[string]string)
+	rec = func(t *Term, env map[string]string) {
+		switch t.Kind {
+		case TVar:
+			if r, ok := env[t.Op]; ok {
+				sb.WriteString(r)
+			} else {
+				sb.WriteString(smtName(t.Op))
+			}
+		case TQuant:
+			ne := make(map[string]string, len(env)+len(t.Bound))
+			for k, v := range env {
+				ne[k] = v
+			}
+			sb.WriteString("(" + t.Op + " (")
+			for _, b := range t.Bound {
+				nm := fmt.Sprintf("b%d", n)
+				n++
+				ne[b.Op] = nm
+				sb.WriteString(nm + ":" + b.Sort.String() + " ")
+			}
+			sb.WriteString(") ")
+			rec(t.Args[0], ne)
+			sb.WriteString(")")
+		case TApp:
+			if len(t.Args) == 0 {
+				sb.WriteString(t.String())
+				return
+			}
+			sb.WriteString("(" + t.Op)
+			for _, a := range t.Args {
+				sb.WriteString(" ")
+				rec(a, env)
+			}
+			sb.WriteString(")")
+		default:
+			sb.WriteString(t.String())
+		}
+	}
+	rec(t, map[string]string{})
+	return sb.String()
+}
+
 // substitute free variables by name
 func subst(t *Term, m map[string]*Term) *Term {
 	if len(m) == 0 {
